@@ -46,7 +46,7 @@ let () = each_line (fun line ->
         let i = List.map (fun h -> match index_op t (bytes_of_hex h) with
             | Some n -> string_of_int (int_of_nat n) | None -> "-") (split_on ';' names) in
         Printf.sprintf "a=%s i=%s" (String.concat ";" a) (String.concat ";" i)
-      | "search" :: tr :: hl :: hn :: o :: bs :: _ ->
+      | "search" :: tr :: hl :: hn :: o :: bs :: rq :: _ ->
         let t = parse_tree tr in
         let loc = bytes_of_hex hl and needle = bytes_of_hex hn in
         let opt = opt_of o in
@@ -54,13 +54,14 @@ let () = each_line (fun line ->
          | SOk es ->
            let bufsize = int_of_string bs in
            let buf = List.init bufsize (fun _ -> z_of_int 0xAA) in
-           let m = match path_search_msg t loc needle opt buf with
+           let m = match path_search_msg t loc needle opt (rq = "1") buf with
              | ROk (n, b) ->
                let n = int_of_z n in
                let rec take k l = if k = 0 then [] else match l with [] -> [] | x :: r -> x :: take (k-1) r in
                Printf.sprintf "%d:%s" n (hex_of_bytes (take n b))
              | RFail w -> show_sres w in
-           Printf.sprintf "n=%d e=%s msg=%s" (List.length es)
+           Printf.sprintf "q=%s n=%d e=%s msg=%s"
+             (if rq = "1" then hl ^ ":" ^ hn else "N") (List.length es)
              (if es = [] then "-" else String.concat ";" (List.map show_entry es)) m
          | w -> show_sres w)
       | _ -> "BADCASE"
